@@ -74,7 +74,7 @@ impl DocGen<'_, '_, '_> {
     }
 
     fn dirs(&mut self, label: &'static str) -> Vec<Dir> {
-        let n = if self.custom_dirs { 12 } else { 10 };
+        let n = if self.custom_dirs { 13 } else { 10 };
         match self.c.choose(label, n) {
             0 => vec![],
             1 => vec![dir("skip", vec![("if", self.bool_var(1))])],
@@ -87,7 +87,9 @@ impl DocGen<'_, '_, '_> {
             8 => vec![dir("include", vec![("if", self.bool_var(2))]), dir("skip", vec![("if", self.bool_var(1))])],
             9 => vec![dir("include", vec![("if", Value::Bool(p0(), true))]), dir("skip", vec![("if", Value::Bool(p0(), true))])],
             10 => vec![dir("tag", vec![("name", Value::Str(p0(), "t".into()))]), dir("tag", vec![("name", Value::Str(p0(), "u".into()))])],
-            _ => vec![dir("once", vec![])],
+            11 => vec![dir("once", vec![])],
+            // a custom directive whose argument is an operation variable
+            _ => vec![dir("tag", vec![("name", self.variable(&Ty::nn(Ty::named("String")), 0))])],
         }
     }
 
@@ -159,7 +161,7 @@ impl DocGen<'_, '_, '_> {
                         let required = f.ty.is_nonnull() && f.default.is_none();
                         let give = if required { true } else { depth > 0 && self.c.flag("obj.optional_field") };
                         if give {
-                            let v = if depth == 0 { self.literal_default(&f.ty) } else { self.value_in_obj(&f.ty, depth - 1) };
+                            let v = if depth == 0 { self.literal_default(&f.ty) } else { self.value_in_obj_field(f, depth - 1) };
                             fs.push((nm(&f.name.s), v));
                         }
                     }
@@ -194,6 +196,16 @@ impl DocGen<'_, '_, '_> {
     }
     fn item(&mut self, item: &Ty, depth: usize) -> Value {
         if item.is_nonnull() || !self.c.flag("list.null_item") { self.literal(item, depth) } else { Value::Null(p0()) }
+    }
+    fn value_in_obj_field(&mut self, f: &InputValueDef, depth: usize) -> Value {
+        // spec IsVariableUsageAllowed: the field's own default makes a nullable variable acceptable
+        if f.ty.is_nonnull() && f.default.is_some() && self.c.flag("obj.nullable_var_for_defaulted_nonnull_field") {
+            let inner = f.ty.nullable().clone();
+            let name = format!("v{}", self.vars.len());
+            self.vars.push(VarDef { p: p0(), name: nm(&name), ty: inner, default: None, dirs: vec![] });
+            return Value::Var(p0(), name);
+        }
+        self.value_in_obj(&f.ty, depth)
     }
     fn value_in_obj(&mut self, ty: &Ty, depth: usize) -> Value {
         if self.c.flag("obj.field_is_variable") { self.variable(ty, 0) } else if !ty.is_nonnull() && self.c.flag("obj.field_null") { Value::Null(p0()) } else { self.literal(ty, depth) }
@@ -295,7 +307,16 @@ impl DocGen<'_, '_, '_> {
                         self.frags.push(ExecDef::Frag { p: p0(), name: nm(&name), cond: nm(&cond), dirs: vec![], sel: selset(vec![typename()]) });
                         let idx = self.frags.len() - 1;
                         let body = if depth == 0 { selset(vec![typename()]) } else { self.selset(&cond, depth - 1) };
-                        let fdirs = if self.custom_dirs && self.c.flag("fragdef.dir") { vec![dir("tag", vec![("name", Value::Str(p0(), "f".into()))])] } else { vec![] };
+                        let fdirs = if !self.custom_dirs {
+                            vec![]
+                        } else {
+                            match self.c.choose("fragdef.dir", 3) {
+                                0 => vec![],
+                                1 => vec![dir("tag", vec![("name", Value::Str(p0(), "f".into()))])],
+                                // a variable of the operations that spread the fragment
+                                _ => vec![dir("tag", vec![("name", self.variable(&Ty::nn(Ty::named("String")), 0))])],
+                            }
+                        };
                         self.frags[idx] = ExecDef::Frag { p: p0(), name: nm(&name), cond: nm(&cond), dirs: fdirs, sel: body };
                         name
                     };
